@@ -114,6 +114,7 @@ type cleanEntry struct {
 }
 
 type cleanFile struct {
+	Ghost   bool         `json:"ghost,omitempty"` // the file is addressed only by a call that fails (missing snapshot, Update(false)): registered, but every entry is stale
 	Cfg     CfgSpec      `json:"cfg"`
 	Entries []cleanEntry `json:"entries"` // in file order
 	Perm2   []int        `json:"perm2"`   // a second initial order of the same entries (metamorphic relation)
@@ -217,6 +218,12 @@ func genC10(t *rapid.T) c10Case {
 		cfg := CfgSpec{Dir: "snaps", Filename: []string{"f", "g"}[i]}
 		c.Files = append(c.Files, genCleanFile(t, cfg, names, o, col, 25, true))
 	}
+	if nfiles == 2 && rapid.IntRange(0, 3).Draw(t, "ghost") == 0 {
+		for i := range c.Files[0].Entries {
+			c.Files[0].Entries[i].Live = false
+		}
+		c.Files[0].Ghost = true
+	}
 	return c
 }
 
@@ -244,6 +251,16 @@ func runCleanProcess(root string, files []cleanFile, mode Mode, count int, sortO
 						order = append(order, e.Test)
 					}
 					byTest[e.Test] = append(byTest[e.Test], e)
+				}
+			}
+			if f.Ghost {
+				gs := f.Cfg
+				gs.Update = boolp(false)
+				ft := newFakeT("TestGhostXyz")
+				r := Call{API: "snap", Vals: []Val{strVal("never stored")}}.invoke(gs.build(root), ft)
+				ft.finish()
+				if out, _ := outcomeOf(r); out != oFailed {
+					return "", fmt.Errorf("ghost call (missing snapshot, Update(false)) ended as %q", out)
 				}
 			}
 			sort.Strings(order)
@@ -291,6 +308,10 @@ func checkC10(c c10Case) error {
 	addressed := make([]bool, len(c.Files))
 	dirVisited := false
 	for i, f := range c.Files {
+		if f.Ghost {
+			addressed[i] = true
+			dirVisited = true
+		}
 		for _, e := range f.Entries {
 			if e.Live {
 				addressed[i] = true
@@ -378,7 +399,7 @@ func checkC10(c c10Case) error {
 	// running Clean again changes nothing (content; and no write at all when the id order is total)
 	survivors := make([]cleanFile, len(c.Files))
 	for i, f := range c.Files {
-		survivors[i] = cleanFile{Cfg: f.Cfg}
+		survivors[i] = cleanFile{Cfg: f.Cfg, Ghost: f.Ghost}
 		for _, e := range f.Entries {
 			if (e.Live || !deletes) && !(deletes && dirVisited && !addressed[i]) {
 				survivors[i].Entries = append(survivors[i].Entries, e)
